@@ -1,6 +1,6 @@
 (** * C08 -- Binary operators group by the declared precedence, left to right. *)
 From Coq Require Import String ZArith List Bool Arith.
-From NSL Require Import Base.Types Spec.Prec Model.ParserSR Proofs.SRParser.
+From NSL Require Import Base.Types Spec.Prec Model.ParserSR Proofs.SRParser Model.Lexer Proofs.LexerProofs.
 From NSLDyn Require Gen_ParserTables.
 Import ListNotations.
 
@@ -46,13 +46,20 @@ Theorem C08_parentheses_override : forall o l r, canonical l -> canonical r -> p
   parse (flatten (PNode o (PPar l) (PPar r))) = Some (PNode o (PPar l) (PPar r)).
 Proof. intros o l r Hl Hr Pl Pr. apply C08_grouping. simpl. auto 10. Qed.
 
-(** The last sentence of the property (independence of whitespace and line breaks) concerns the lexer.  It is NOT
-    proved: the token-level theorems above hold for whatever token string the lexer delivers, and the layouts are
-    covered by the correspondence only (every case is rendered in several layouts). *)
-Definition C08_layout_full_statement : Prop :=
-  forall (lex : string -> option (list token)) (render : list token -> list string -> string) toks seps1 seps2,
-    lex (render toks seps1) = Some toks -> lex (render toks seps2) = Some toks ->
-    parse toks = parse toks.
+(** The grouping does not depend on whitespace or line breaks between tokens.  On the model of the lexer
+    (Model.Lexer: first matching rule in PLY's rule order on the characters expressions are made of; compared with
+    the real lexer's token stream on every run, including strings where neighbours merge): for EVERY list of
+    well-formed tokens and EVERY two choices of separators -- arbitrary strings of blanks, tabs and line breaks, empty
+    wherever the token before tolerates the next character -- both texts lex to that same token list; the parser
+    therefore receives the same tokens and (C08_grouping_exact) builds the same tree. *)
+Theorem C08_layout_independent : forall toks seps1 seps2, forallb wf_tok toks = true ->
+  seps_ok None toks seps1 = true -> seps_ok None toks seps2 = true ->
+  exists f1 f2, lex f1 (render toks seps1) = Some toks /\ lex f2 (render toks seps2) = Some toks.
+Proof. exact lex_layout_independent. Qed.
+
+Theorem C08_lex_render : forall toks seps, forallb wf_tok toks = true -> seps_ok None toks seps = true ->
+  exists fuel, forall k, lex (k + fuel) (render toks seps) = Some toks.
+Proof. exact lex_render. Qed.
 
 Example C08_examples :
   let a := KAtom 0 in let b := KAtom 1 in let c := KAtom 2 in
@@ -64,6 +71,7 @@ Example C08_examples :
 Proof. vm_compute. repeat split. Qed.
 
 Eval compute in "ASSUMPTIONS C08_grouping_exact"%string. Print Assumptions C08_grouping_exact.
+Eval compute in "ASSUMPTIONS C08_layout_independent"%string. Print Assumptions C08_layout_independent.
 Eval compute in "ASSUMPTIONS C08_pairs"%string. Print Assumptions C08_pairs.
 Eval compute in "ASSUMPTIONS C08_assignment_rhs_extends"%string. Print Assumptions C08_assignment_rhs_extends.
 Eval compute in "END"%string.
